@@ -1627,6 +1627,37 @@ MODELS = {
 }
 
 
+# Scenario families of other checks, executed by every check and judged with ITS monitors: a
+# property's monitors see more shapes than its own generator makes (round 4: the C03 change was
+# raised at once by C13's scenarios, whose monitors include NoDangling in every state, while C03's
+# own generator did not reach it).
+POOL_SOURCES = ["C01", "C02", "C13", "C14", "C16", "C17"]
+POOL_PROPS = {"C01", "C02", "C03", "C04", "C05", "C07", "C09", "C10", "C13", "C14", "C16", "C17"}
+
+
+def common_pool(prop, tier, seed):
+    if prop not in POOL_PROPS:
+        return []
+    rng = random.Random(seed * 77 + 5)
+    out = []
+    for src in POOL_SOURCES:
+        if src == prop:
+            continue
+        g = CHECKS[src]["gen"](tier, seed)
+        scens = g[0] if isinstance(g, tuple) else g
+        light = [x for x in scens if not any(st.get("op") in ("sweep", "conc_sweep", "damage_sweep", "bulk_probe") for st in x["steps"])]
+        for x in rng.sample(light, min(len(light), 10 if tier == "quick" else 60)):
+            y = dict(x)
+            y["id"] = "POOL-" + x["id"]
+            y["tags"] = list(x.get("tags", [])) + ["pool"]
+            if x.get("mode", "clean") in ("clean", "big") and not any(st.get("op") in ("new_archive", "outside", "layout") for st in x["steps"]):
+                # every observation at the end, so that whichever property's monitors judge it have something to judge
+                y["steps"] = list(x["steps"]) + [{"op": "versions"}, {"op": "list_all"}, {"op": "restore_all", "latest": True},
+                                                 {"op": "validate", "quick": False}, {"op": "validate", "quick": True}]
+            out.append(y)
+    return out
+
+
 def run_check(prop, tier, seed, t0, keep=False):
     spec = CHECKS[prop]
     gen_out = spec["gen"](tier, seed)
@@ -1640,6 +1671,8 @@ def run_check(prop, tier, seed, t0, keep=False):
             print(f"[check {prop}] model {cfg}: {r['states']} distinct states, {r['transitions']} generated, {r['wall']:.0f}s")
     else:
         scens = gen_out
+    own = len(scens)
+    scens = scens + common_pool(prop, tier, seed)
     by_id = {s["id"]: s for s in scens}
     mc = list(mc)
     for entry in MODELS.get(prop, {}).get(tier, []):
@@ -1668,11 +1701,13 @@ def run_check(prop, tier, seed, t0, keep=False):
     if other:
         print(f"[check {prop}] monitors of other properties that fired (not judged here): {other}")
     fn, rule = NONTRIVIAL.get(prop, (lambda s: True, "distinct scenario digests"))
-    digests = {cvlib.scen_digest(s) for s in scens if fn(s)}
+    digests = {cvlib.scen_digest(s) for s in scens[:own] if fn(s)}
     states = sum(r["states"] for _, _, r in mc)
     trans = sum(r["transitions"] for _, _, r in mc)
     cov = {
         "evaluations": len(scens),
+        "own_scenarios": own,
+        "pool_scenarios_from_other_checks": len(scens) - own,
         "distinct_nontrivial": len(digests),
         "rule": rule,
         "samples": [json.loads(cvlib.brief(s, 1500)) if len(json.dumps(s)) <= 1500 else {"id": s["id"], "steps": [st.get("op") for st in s["steps"]], "truncated": cvlib.brief(s, 600)} for s in scens[:2]],
